@@ -2,9 +2,26 @@
    (staked total + pending unbondings), in every reachable state. *)
 From Coq Require Import ZArith List Bool Lia.
 From Alliance Require Import Num KMap KMapFacts KMapSorted Types Monad Model Step Spec Hoare.
-From Alliance.Proofs Require Import SortedInv WellKeyed Misc Frames.
+From Alliance.Proofs Require Import SortedInv WellKeyed Misc Frames Queues.
 Import ListNotations.
 Open Scope Z_scope.
+
+
+(* a sorted map returns, under the key of one of its bindings, that binding *)
+Lemma kget_in_sorted {V} (m : KMap V) kv : ksorted m -> In kv m -> kget m (fst kv) = Some (snd kv).
+Proof.
+  intros Hm Hin; induction m as [|[k0 v0] m IH]; [destruct Hin|].
+  apply ksorted_inv in Hm. destruct Hm as [Hm Hall]. cbn [kget]. destruct Hin as [<-|Hin].
+  - cbn. rewrite kcmp_refl. reflexivity.
+  - rewrite Forall_forall in Hall. specialize (Hall kv Hin). cbn in Hall.
+    rewrite (kcmp_lt_gt _ _ Hall). apply IH; assumption.
+Qed.
+
+
+Lemma oracle_fold_put_bal bs : forall s, oracle (fold_left (fun s b => put_bal (fst (fst b)) (snd (fst b)) (snd b) s) bs s) = oracle s.
+Proof. induction bs as [|b bs IH]; intros s; cbn [fold_left]; [reflexivity | rewrite IH; reflexivity]. Qed.
+Lemma oracle_fold_put_sup ss : forall s, oracle (fold_left (fun s ds => put_sup (fst ds) (snd ds) s) ss s) = oracle s.
+Proof. induction ss as [|b bs IH]; intros s; cbn [fold_left]; [reflexivity | rewrite IH; reflexivity]. Qed.
 
 Section Denom.
   Variable d : Z.
@@ -325,5 +342,994 @@ Section Denom.
       - apply Z.eqb_eq in E3. subst dn. rewrite E3 in HR. rewrite (T_of_kget s a (Inv_WK _ Hi) HR) in Hc. lia.
       - lia. }
     intros _. apply inv_hoare_true. jc_auto c.
+  Qed.
+
+  (* ================================================================================
+     Success-only preservation: [HS c m] — if m returns normally from a state with
+     margin c, the margin is still c.  (A failing message is rolled back by baseapp;
+     a failing slash callback is the subject of C08 and is excluded by the theorem.) *)
+  Definition HS (c : Z) {A} (m : M A) : Prop := hoare (JC c) m (fun _ => JC c) (fun _ => True).
+  Lemma HS_of_inv c A (m : M A) : inv (JC c) m -> HS c m.
+  Proof. intros H; apply inv_hoare_true; exact H. Qed.
+  Lemma HS_bind c A B (m : M A) (f : A -> M B) : HS c m -> (forall a, HS c (f a)) -> HS c (bind m f).
+  Proof. intros Hm Hf; eapply hoare_bind; [exact Hm | exact Hf]. Qed.
+  Lemma HS_ret c A (a : A) : HS c (ret a).
+  Proof. apply hoare_ret; auto. Qed.
+  Lemma HS_fail c A e : HS c (@fail A e).
+  Proof. apply hoare_fail; auto. Qed.
+  Lemma HS_panic c A e : HS c (@panic A e).
+  Proof. apply hoare_panic; auto. Qed.
+  Lemma HS_mfor c A (l : list A) (f : A -> M unit) : (forall x, HS c (f x)) -> HS c (mfor l f).
+  Proof. intros H; apply hoare_mfor; exact H. Qed.
+  Lemma HS_mfold c A B (l : list A) (f : B -> A -> M B) : (forall acc x, HS c (f acc x)) -> forall acc, HS c (mfold l acc f).
+  Proof.
+    intros H; induction l as [|x l IH]; intros acc; cbn [mfold]; [apply HS_ret|].
+    apply HS_bind; [apply H | intros acc'; apply IH].
+  Qed.
+  Lemma HS_mfor_swallow c A (l : list A) (f : A -> M unit) : (forall x, inv (JC c) (f x)) -> HS c (mfor_swallow l f).
+  Proof. intros H; apply HS_of_inv, inv_mfor_swallow; exact H. Qed.
+
+  (* coins known to be non-negative *)
+  Lemma cany_neg_false coins : cany_neg coins = false -> coins_nonneg coins.
+  Proof.
+    unfold cany_neg, coins_nonneg. induction coins as [|da coins IH]; cbn; [constructor|].
+    intros H. apply orb_false_elim in H; destruct H as [H1 H2]. constructor; [apply Z.ltb_ge in H1; exact H1 | apply IH; exact H2].
+  Qed.
+  Lemma coin1_nonneg dn a : forall s, match coin1 dn a s with Ok coins _ => coins_nonneg coins /\ csum coins = (if dn =? d then a else 0) | _ => True end.
+  Proof.
+    intros s. unfold coin1. destruct (a <? 0) eqn:E; cbn; [exact I|]. apply Z.ltb_ge in E.
+    destruct (a =? 0) eqn:E0; cbn.
+    - apply Z.eqb_eq in E0; subst. split; [constructor|]. destruct (dn =? d); reflexivity.
+    - split; [constructor; [exact E | constructor]|]. destruct (dn =? d); lia.
+  Qed.
+
+  (* crediting any account with non-negative coins never lowers the margin *)
+  Lemma jc_bank_add_any c a coins : coins_nonneg coins -> hoare (JC c) (bank_add a coins) (fun _ => JC c) (fun _ => False).
+  Proof.
+    intros Hn. destruct (Z.eq_dec a ACC_ALLIANCE) as [->|Hne].
+    - eapply hoare_post; [| |apply jc_bank_add_custody]; [|intros ? []].
+      intros ? s H. eapply JC_weaken; [|exact H]. pose proof (csum_nonneg coins Hn). lia.
+    - intros s Hs. pose proof (jc_bank_add_other c a coins Hne s Hs) as H.
+      assert (Hnf : nofail (bank_add a coins)) by (unfold bank_add; nofail_deep).
+      specialize (Hnf s I). destruct (bank_add a coins s); auto.
+  Qed.
+
+  (* custody pays out: the margin shrinks by what left (on success) *)
+  Lemma jc_send_from_custody c to coins : coins_nonneg coins ->
+    hoare (JC c) (bank_send ACC_ALLIANCE to coins) (fun _ => JC (c - csum coins)) (fun _ => True).
+  Proof.
+    intros Hn. unfold bank_send. eapply hoare_bind; [apply jc_bank_sub_custody|]. intros ?; cbv beta.
+    eapply hoare_post; [| |apply (jc_bank_add_any (c - csum coins) to coins Hn)]; [intros ? ? H; exact H | intros ? []].
+  Qed.
+
+  (* a claim by anybody (the payout is non-negative) *)
+  Lemma jc_claim_any del v vi dn c : HS c (claim_delegation_rewards del v vi dn).
+  Proof.
+    unfold claim_delegation_rewards.
+    apply HS_bind; [apply HS_of_inv; unfold get_asset; apply inv_gets|]. intros oa. destruct oa as [a|]; [|apply HS_fail].
+    apply HS_bind; [apply HS_of_inv, inv_gets|]. intros t. destruct (negb (rewards_started a t)); [apply HS_ret|].
+    apply HS_bind; [apply HS_of_inv; unfold get_delegation; apply inv_gets|]. intros od. destruct od as [dl|]; [|apply HS_fail].
+    apply HS_bind; [apply HS_of_inv, jc_claim_validator_rewards|]. intros vi'.
+    apply HS_bind; [apply HS_of_inv, inv_gets|]. intros s1.
+    destruct (calculate_delegation_rewards s1 v dl vi' a) as [coins idx].
+    apply HS_bind; [apply HS_of_inv, inv_gets|]. intros h.
+    apply HS_bind; [apply HS_of_inv; jc_auto c|]. intros _.
+    destruct (cany_neg coins) eqn:En.
+    - intros s Hs. unfold bind, panic. exact I.
+    - apply HS_bind; [apply HS_ret|]. intros _.
+      apply HS_bind; [|intros; apply HS_ret].
+      unfold bank_send. apply HS_bind; [apply HS_of_inv, jc_bank_sub_other; acc_ne|]. intros _.
+      eapply hoare_post; [| |apply (jc_bank_add_any c del coins (cany_neg_false _ En))]; [intros ? ? H; exact H | intros ? []].
+  Qed.
+
+  (* ---------- carrying "the asset stored under dn is a0" along ---------- *)
+  Definition Rk (dn : Z) (a0 : Asset) (A0 : KMap Asset) : Prop := kget A0 [dn] = Some a0.
+  Lemma HS_with_assets c A (R : KMap Asset -> Prop) (m : M A) :
+    HS c m -> (forall A0, inv (JA A0) m) ->
+    hoare (fun s => JC c s /\ R (assets s)) m (fun _ s => JC c s /\ R (assets s)) (fun _ => True).
+  Proof.
+    intros H1 H2 s [HJ HR]. specialize (H1 s HJ). specialize (H2 (assets s) s eq_refl). unfold JA in H2.
+    destruct (m s); auto. rewrite H2; auto.
+  Qed.
+  Lemma a_denom_of_kget s dn a : Inv s -> kget (assets s) [dn] = Some a -> a_denom a = dn.
+  Proof. intros Hi Hg. pose proof (kall_kget _ _ _ _ (Inv_WK _ Hi) Hg) as Hk. cbn in Hk. inversion Hk; reflexivity. Qed.
+
+  (* writing back, under its own key, an asset whose total differs by x from the stored one *)
+  Lemma jc_set_asset_delta c dn a a' x :
+    a_denom a' = dn -> a_tokens a' = a_tokens a - x ->
+    hoare (fun s => JC c s /\ Rk dn a (assets s)) (set_asset a')
+          (fun _ s => JC (c + (if dn =? d then x else 0)) s /\ Rk dn a' (assets s)) (fun _ => True).
+  Proof.
+    intros Hd Ht. unfold set_asset. apply hoare_modify. intros s [[Hi Hc] HR]. unfold Rk in *. split.
+    - split; [inv_goal Hi|]. unfold sl in *. rewrite T_set_asset by exact Hi.
+      change (B (set_assets _ s)) with (B s). change (U (set_assets _ s)) with (U s). rewrite Hd.
+      destruct (dn =? d) eqn:E.
+      + apply Z.eqb_eq in E. rewrite E in HR. rewrite (T_of_kget s a (Inv_WK _ Hi) HR) in Hc. lia.
+      + lia.
+    - cbn. rewrite Hd. apply kget_kset_same.
+  Qed.
+
+  (* ResetAssetAndValidators on the asset that is stored: the total is untouched *)
+  Lemma jc_reset c dn a : a_denom a = dn ->
+    hoare (fun s => JC c s /\ Rk dn a (assets s)) (reset_asset_and_validators a) (fun _ => JC c) (fun _ => True).
+  Proof.
+    intros Hd. unfold reset_asset_and_validators. destruct (negb (a_tokens a =? 0)); [apply hoare_ret; intros s [H _]; exact H|].
+    eapply hoare_bind with (Q1 := fun _ s => JC c s /\ Rk dn a (assets s)); [apply hoare_gets; auto|]. intros infos.
+    eapply hoare_bind with (Q1 := fun _ s => JC c s /\ Rk dn a (assets s)).
+    { apply (HS_with_assets c _ (Rk dn a)); [apply HS_of_inv; jc_auto c | assets_frame]. }
+    intros _.
+    eapply hoare_post; [| |apply (jc_set_asset_delta c dn a (set_a_vshares 0 a) 0)]; cbn; try lia; auto.
+    intros _ s [H _]. destruct (dn =? d); rewrite Z.add_0_r in H; exact H.
+  Qed.
+
+  Lemma jc_clear_dust c del v vi dn a : a_denom a = dn ->
+    hoare (fun s => JC c s /\ Rk dn a (assets s)) (clear_dust_delegation del v vi a) (fun _ => JC c) (fun _ => True).
+  Proof.
+    intros Hd. unfold clear_dust_delegation.
+    eapply hoare_bind with (Q1 := fun _ s => JC c s /\ Rk dn a (assets s)).
+    { apply (HS_with_assets c _ (Rk dn a)); [apply HS_of_inv; unfold get_delegation; apply inv_gets | assets_frame]. }
+    intros od.
+    eapply hoare_bind with (Q1 := fun _ s => JC c s /\ Rk dn a (assets s)).
+    { apply (HS_with_assets c _ (Rk dn a)); [apply HS_of_inv; jc_auto c | assets_frame]. }
+    intros dsr.
+    eapply hoare_bind with (Q1 := fun _ s => JC c s /\ Rk dn a (assets s)).
+    { apply (HS_with_assets c _ (Rk dn a)); [apply HS_of_inv; jc_auto c | assets_frame]. }
+    intros _.
+    eapply hoare_bind with (Q1 := fun _ s => JC c s /\ Rk dn a (assets s)).
+    { apply (HS_with_assets c _ (Rk dn a)); [apply HS_of_inv; jc_auto c | assets_frame]. }
+    intros ds.
+    eapply hoare_bind with (Q1 := fun _ s => JC c s /\ Rk dn a (assets s)).
+    { apply (HS_with_assets c _ (Rk dn a)); [apply HS_of_inv; jc_auto c | assets_frame]. }
+    intros vs.
+    eapply hoare_bind with (Q1 := fun _ s => JC c s /\ Rk dn a (assets s)).
+    { apply (HS_with_assets c _ (Rk dn a)); [apply HS_of_inv; jc_auto c | assets_frame]. }
+    intros _.
+    eapply hoare_bind; [apply (jc_reset c dn a Hd)|]. intros ?; cbv beta. apply hoare_ret; auto.
+  Qed.
+
+  (* queueUndelegation: the pending sum grows by the amount *)
+  Lemma jc_queue_undelegation c del v dn amt :
+    hoare (JC (c + (if dn =? d then amt else 0))) (queue_undelegation del v dn amt) (fun _ => JC c) (fun _ => True).
+  Proof.
+    unfold queue_undelegation.
+    eapply hoare_bind with (Q1 := fun _ => JC (c + (if dn =? d then amt else 0))); [apply hoare_gets; auto|]. intros t.
+    eapply hoare_bind with (Q1 := fun _ => JC (c + (if dn =? d then amt else 0))); [apply hoare_gets; auto|]. intros ub.
+    apply hoare_modify. intros s [Hi Hc]. split; [inv_goal Hi|].
+    unfold sl in *.
+    change (B (set_undelidx _ (set_undelq _ s))) with (B s). change (T (set_undelidx _ (set_undelq _ s))) with (T s).
+    change (U (set_undelidx ?x (set_undelq ?q s))) with (U (set_undelq q s)).
+    rewrite U_set_bucket by exact Hi. rewrite lsum_app. cbn [lsum fold_right u_denom u_amount].
+    destruct (kget (undelq s) [t + ub; del]); destruct (dn =? d); unfold lsum; cbn [fold_right]; lia.
+  Qed.
+
+  (* ---------- Undelegate ---------- *)
+  Lemma jc_k_undelegate del v vi dn amt c : HS c (k_undelegate del v vi dn amt).
+  Proof.
+    unfold k_undelegate, get_asset. apply hoare_bind_gets_eq. intros s0 Hs0.
+    destruct (kget (assets s0) [dn]) as [a|] eqn:Eg; [|apply hoare_fail; auto].
+    pose proof (a_denom_of_kget s0 dn a (proj1 Hs0) Eg) as Hda.
+    set (x := if dn =? d then amt else 0).
+    apply (hoare_pre _ _ (fun s => JC c s /\ Rk dn a (assets s))); [intros s ->; split; [exact Hs0 | exact Eg]|].
+    eapply hoare_bind with (Q1 := fun _ s => JC c s /\ Rk dn a (assets s)).
+    { apply (HS_with_assets c _ (Rk dn a)); [apply HS_of_inv; unfold get_delegation; apply inv_gets | assets_frame]. }
+    intros od. destruct od as [d0|]; [|apply hoare_fail; auto].
+    eapply hoare_bind with (Q1 := fun _ s => JC c s /\ Rk dn a (assets s)).
+    { apply (HS_with_assets c _ (Rk dn a)); [apply jc_claim_any | assets_frame]. }
+    intros vi1.
+    eapply hoare_bind with (Q1 := fun _ s => JC c s /\ Rk dn a (assets s)).
+    { apply (HS_with_assets c _ (Rk dn a)); [apply HS_of_inv; unfold get_delegation; apply inv_gets | assets_frame]. }
+    intros od1.
+    eapply hoare_bind with (Q1 := fun _ s => JC c s /\ Rk dn a (assets s)).
+    { apply (HS_with_assets c _ (Rk dn a)); [apply HS_of_inv; jc_auto c | assets_frame]. }
+    intros sh.
+    match goal with |- hoare _ (if ?b then _ else _) _ _ => destruct b end; [apply hoare_fail; auto|].
+    eapply hoare_bind with (Q1 := fun _ s => JC c s /\ Rk dn a (assets s)).
+    { apply (HS_with_assets c _ (Rk dn a)); [apply HS_of_inv; jc_auto c | assets_frame]. }
+    intros vsr.
+    set (a' := set_a_vshares (a_vshares a - vsr) (set_a_tokens (a_tokens a - amt) a)).
+    eapply hoare_bind.
+    { apply (jc_set_asset_delta c dn a a' amt); [exact Hda | reflexivity]. }
+    intros ?; cbv beta. fold x.
+    eapply hoare_bind with (Q1 := fun _ s => JC (c + x) s /\ Rk dn a' (assets s)).
+    { apply (HS_with_assets (c + x) _ (Rk dn a')); [apply HS_of_inv; jc_auto (c + x) | assets_frame]. }
+    intros _.
+    eapply hoare_bind with (Q1 := fun _ s => JC (c + x) s /\ Rk dn a' (assets s)).
+    { apply (HS_with_assets (c + x) _ (Rk dn a')); [apply HS_of_inv; jc_auto (c + x) | assets_frame]. }
+    intros vi2.
+    eapply hoare_bind; [apply (jc_clear_dust (c + x) del v vi2 dn a'); exact Hda|]. intros ?; cbv beta.
+    eapply hoare_bind; [apply jc_queue_undelegation|]. intros ?; cbv beta.
+    apply HS_of_inv. jc_auto c.
+  Qed.
+
+  (* ---------- automation for success-only goals ---------- *)
+  Ltac hs_step c :=
+    first
+      [ lazymatch goal with
+        | |- HS _ (claim_delegation_rewards _ _ _ _) => apply jc_claim_any
+        | |- HS _ (claim_validator_rewards _ _) => apply HS_of_inv, jc_claim_validator_rewards
+        | |- HS _ (ret _) => apply HS_ret
+        | |- HS _ (fail _) => apply HS_fail
+        | |- HS _ (panic _) => apply HS_panic
+        | |- HS _ (bind _ _) => apply HS_bind; [| intros ?]
+        | |- HS _ (mfor _ _) => apply HS_mfor; intros ?
+        | |- HS _ (mfold _ _ _) => apply HS_mfold; intros ? ?
+        | |- HS _ (gets _) => apply HS_of_inv, inv_gets
+        | |- HS _ (modify _) => apply HS_of_inv; jc_leaf c
+        | |- HS _ (opt_or_panic _ _) => apply HS_of_inv, inv_opt_or_panic
+        | |- HS _ (opt_or_fail _ _) => apply HS_of_inv, inv_opt_or_fail
+        | |- HS _ (if ?b then _ else _) => destruct b eqn:?
+        | |- HS _ (match ?x with _ => _ end) => destruct x eqn:?
+        | |- HS _ (let '(_, _) := ?x in _) => destruct x eqn:?
+        end
+      | lazymatch goal with |- HS _ ?m => let h := head_of m in unfold h end ].
+  Ltac hs_auto c := repeat (hs_step c).
+
+  (* ---------- Redelegate ---------- *)
+  Lemma jc_k_redelegate del src svi dst dvi dn amt c : HS c (k_redelegate del src svi dst dvi dn amt).
+  Proof.
+    unfold k_redelegate. destruct (src =? dst); [apply HS_fail|]. unfold get_asset. apply hoare_bind_gets_eq. intros s0 Hs0.
+    destruct (kget (assets s0) [dn]) as [a|] eqn:Eg; [|apply hoare_fail; auto].
+    pose proof (a_denom_of_kget s0 dn a (proj1 Hs0) Eg) as Hda.
+    apply (hoare_pre _ _ (fun s => JC c s /\ Rk dn a (assets s))); [intros s ->; split; [exact Hs0 | exact Eg]|].
+    assert (Hstep : forall A (m : M A), HS c m -> (forall A0, inv (JA A0) m) ->
+              hoare (fun s => JC c s /\ Rk dn a (assets s)) m (fun _ s => JC c s /\ Rk dn a (assets s)) (fun _ => True))
+      by (intros A m; apply (HS_with_assets c A (Rk dn a))).
+    eapply hoare_bind; [apply Hstep; [apply HS_of_inv; unfold get_delegation; apply inv_gets | assets_frame]|]. intros od; cbv beta.
+    destruct od as [d0|]; [|apply hoare_fail; auto].
+    eapply hoare_bind; [apply Hstep; [apply jc_claim_any | assets_frame]|]. intros svi1; cbv beta.
+    eapply hoare_bind; [apply Hstep; [apply HS_of_inv; unfold get_delegation; apply inv_gets | assets_frame]|]. intros od1; cbv beta.
+    eapply hoare_bind; [apply Hstep; [apply HS_of_inv; unfold get_delegation; apply inv_gets | assets_frame]|]. intros odd; cbv beta.
+    eapply hoare_bind.
+    { apply Hstep; [destruct odd; [apply jc_claim_any | apply HS_of_inv, jc_claim_validator_rewards] | destruct odd; assets_frame]. }
+    intros dvi1; cbv beta.
+    eapply hoare_bind; [apply Hstep; [apply HS_of_inv; jc_auto c | assets_frame]|]. intros sh; cbv beta.
+    match goal with |- hoare _ (if ?b then _ else _) _ _ => destruct b end; [apply hoare_fail; auto|].
+    eapply hoare_bind; [apply Hstep; [apply HS_of_inv, inv_gets | assets_frame]|]. intros blocked; cbv beta.
+    destruct blocked; [apply hoare_fail; auto|].
+    eapply hoare_bind; [apply Hstep; [apply HS_of_inv, inv_gets | assets_frame]|]. intros t; cbv beta.
+    eapply hoare_bind; [apply Hstep; [apply HS_of_inv, inv_gets | assets_frame]|]. intros ub; cbv beta.
+    eapply hoare_bind; [apply Hstep; [apply HS_of_inv, inv_opt_or_panic | assets_frame]|]. intros cvs; cbv beta.
+    eapply hoare_bind; [apply Hstep; [apply HS_of_inv; jc_auto c | assets_frame]|]. intros ?; cbv beta.
+    eapply hoare_bind; [apply Hstep; [apply HS_of_inv; jc_auto c | assets_frame]|]. intros svi2; cbv beta.
+    eapply hoare_bind; [apply (jc_clear_dust c del src svi2 dn a Hda)|]. intros ?; cbv beta.
+    apply HS_of_inv. jc_auto c.
+  Qed.
+
+  (* ---------- Slash: bonded shares ---------- *)
+  Lemma jc_slash_shares_loop c f (l : Coins) : forall acc,
+    HS c (mfold l acc (fun acc da =>
+      let to_slash := dmul (snd da) f in
+      (if snd da - to_slash <? 0 then panic P_NEG_COIN else ret tt) ;;;
+      oa <- get_asset (fst da) ;;
+      match oa with
+      | None => fail E_UNKNOWN_ASSET
+      | Some a => set_asset (set_a_vshares (a_vshares a - to_slash) a) ;;; ret (cadd1 acc (fst da) (snd da - to_slash))
+      end)).
+  Proof.
+    apply HS_mfold. intros acc da. cbv zeta.
+    apply HS_bind; [destruct (snd da - dmul (snd da) f <? 0); [apply HS_panic | apply HS_ret]|]. intros _.
+    unfold get_asset. apply hoare_bind_gets_eq. intros s0 Hs0.
+    destruct (kget (assets s0) [fst da]) as [a|] eqn:Eg; [|apply hoare_fail; auto].
+    pose proof (a_denom_of_kget s0 (fst da) a (proj1 Hs0) Eg) as Hda.
+    apply (hoare_pre _ _ (fun s => JC c s /\ Rk (fst da) a (assets s))); [intros s ->; split; [exact Hs0 | exact Eg]|].
+    eapply hoare_bind; [apply (jc_set_asset_delta c (fst da) a (set_a_vshares (a_vshares a - dmul (snd da) f) a) 0); cbn; [exact Hda | lia]|].
+    intros ?; cbv beta. apply hoare_ret. intros s [H _]. destruct (fst da =? d); rewrite Z.add_0_r in H; exact H.
+  Qed.
+
+  (* ---------- Slash: pending redelegations (only claims and share records) ---------- *)
+  Lemma jc_slash_redelegations v f c : HS c (slash_redelegations v f).
+  Proof. hs_auto c. Qed.
+
+  (* ---------- Slash: pending unbondings ---------- *)
+  Definition JCQ (c : Z) (Q0 : KMap (list Undel)) (s : State) : Prop := JC c s /\ undelq s = Q0.
+  (* bank operations do not touch the queue *)
+  Lemma jcq_of_hoare c c' Q0 A (m : M A) :
+    hoare (JC c) m (fun _ => JC c') (fun _ => True) -> (forall Q, inv (fun s => undelq s = Q) m) ->
+    hoare (JCQ c Q0) m (fun _ => JCQ c' Q0) (fun _ => True).
+  Proof.
+    intros H1 H2 s [HJ HQ]. specialize (H1 s HJ). specialize (H2 Q0 s HQ). destruct (m s); auto. split; assumption.
+  Qed.
+  Lemma Qf Q : forall s s', undelq s' = undelq s -> undelq s = Q -> undelq s' = Q.
+  Proof. intros; congruence. Qed.
+  Lemma lsum_cons e l : lsum (e :: l) = (if u_denom e =? d then u_amount e else 0) + lsum l.
+  Proof. reflexivity. Qed.
+  Lemma lsum_nil : lsum [] = 0.
+  Proof. reflexivity. Qed.
+
+  Definition slash_entry_body (v dn f : Z) (acc : list Undel) (e : Undel) : M (list Undel) :=
+    if negb ((u_val e =? v) && (u_denom e =? dn)) then ret (acc ++ [e]) else
+    let tok := dtrunc (dmul_int f (u_amount e)) in
+    (if (u_amount e - tok <? 0) || (tok <? 0) then panic P_NEG_COIN else ret tt) ;;;
+    c <- coin1 (u_denom e) tok ;;
+    bank_send ACC_ALLIANCE ACC_FEE c ;;;
+    ret (acc ++ [set_u_amount (u_amount e - tok) e]).
+
+  (* one entry: the value returned and what left custody *)
+  Lemma jc_slash_entry v dn f Q0 acc e c :
+    hoare (JCQ c Q0) (slash_entry_body v dn f acc e)
+      (fun acc' s => exists e', acc' = acc ++ [e'] /\ u_denom e' = u_denom e /\
+                     JCQ (c - ((if u_denom e =? d then u_amount e else 0) - (if u_denom e =? d then u_amount e' else 0))) Q0 s)
+      (fun _ => True).
+  Proof.
+    unfold slash_entry_body. destruct (negb ((u_val e =? v) && (u_denom e =? dn))).
+    - apply hoare_ret. intros s H. exists e. repeat split; try reflexivity; try apply H.
+      destruct H as [H _]. eapply JC_weaken; [|exact H]. lia.
+    - cbv zeta. set (tok := dtrunc (dmul_int f (u_amount e))).
+      eapply hoare_bind with (Q1 := fun _ => JCQ c Q0).
+      { destruct ((u_amount e - tok <? 0) || (tok <? 0)); [apply hoare_panic; auto | apply hoare_ret; auto]. }
+      intros _.
+      eapply hoare_bind with (Q1 := fun coins s => JCQ c Q0 s /\ coins_nonneg coins /\ csum coins = (if u_denom e =? d then tok else 0)).
+      { intros s Hs. pose proof (coin1_nonneg (u_denom e) tok s) as H. unfold coin1 in *.
+        destruct (tok <? 0); cbn in *; [exact I|]. destruct H as [H1 H2]. auto. }
+      intros coins.
+      eapply hoare_bind with (Q1 := fun _ s => JCQ (c - (if u_denom e =? d then tok else 0)) Q0 s).
+      { intros s (HJ & Hn & Hcs). rewrite <- Hcs.
+        exact (jcq_of_hoare c (c - csum coins) Q0 _ _ (jc_send_from_custody c ACC_FEE coins Hn)
+                 (fun Q => ltac:(inv_deep (Qf Q))) s HJ). }
+      intros _. apply hoare_ret. intros s H. eexists; repeat split; try reflexivity; try apply H.
+      destruct H as [H _]. cbn [u_denom u_amount set_u_amount]. eapply JC_weaken; [|exact H].
+      destruct (u_denom e =? d); lia.
+  Qed.
+
+  Lemma jc_slash_entries v dn f Q0 : forall rest acc c,
+    hoare (JCQ c Q0) (mfold rest acc (slash_entry_body v dn f))
+      (fun acc' => JCQ (c - (lsum acc + lsum rest - lsum acc')) Q0) (fun _ => True).
+  Proof.
+    induction rest as [|e rest IH]; intros acc c; cbn [mfold].
+    - apply hoare_ret. intros s H. rewrite lsum_nil. replace (c - (lsum acc + 0 - lsum acc)) with c by lia. exact H.
+    - eapply hoare_bind; [apply jc_slash_entry|]. intros acc'; cbv beta.
+      intros s (e' & -> & Hde & HJ).
+      pose proof (IH (acc ++ [e']) _ s HJ) as H.
+      destruct (mfold rest (acc ++ [e']) (slash_entry_body v dn f) s) as [r s'|? ?|? ?]; auto.
+      destruct H as [H HQ]. split; [|exact HQ]. eapply JC_weaken; [|exact H].
+      rewrite lsum_app, !lsum_cons, lsum_nil, Hde. lia.
+  Qed.
+
+  Lemma jc_slash_undelegations v f c : HS c (slash_undelegations v f).
+  Proof.
+    unfold slash_undelegations.
+    apply HS_bind; [apply HS_of_inv, inv_gets|]. intros idx.
+    apply HS_bind; [apply HS_of_inv, inv_gets|]. intros t.
+    apply HS_mfor. intros ku.
+    destruct (fst ku) as [|v0 [|ct [|dn [|del [|]]]]]; try apply HS_fail.
+    destruct (ct <? t); [apply HS_ret|].
+    apply hoare_bind_gets_eq. intros s0 Hs0.
+    set (entries := match kget (undelq s0) [ct; del] with Some l => l | None => [] end).
+    apply (hoare_pre _ _ (JCQ c (undelq s0))); [intros s ->; split; [exact Hs0 | reflexivity]|].
+    eapply hoare_bind; [apply (jc_slash_entries v dn f (undelq s0) entries [] c)|]. intros entries'; cbv beta.
+    apply hoare_modify. intros s [[Hi Hc] HQ]. split; [inv_goal Hi|].
+    unfold sl in *. change (B (set_undelq _ s)) with (B s). change (T (set_undelq _ s)) with (T s).
+    rewrite U_set_bucket by exact Hi. rewrite HQ. fold entries.
+    assert (Hl : match kget (undelq s0) [ct; del] with Some o => lsum o | None => 0 end = lsum entries).
+    { unfold entries. destruct (kget (undelq s0) [ct; del]); reflexivity. }
+    rewrite Hl. rewrite lsum_nil in Hc. lia.
+  Qed.
+
+  (* ---------- the slash callback ---------- *)
+  Lemma jc_hook_slash v f c : HS c (hook_slash v f).
+  Proof.
+    unfold hook_slash. apply HS_bind; [|intros _; apply HS_of_inv; jc_auto c].
+    unfold slash_validator. destruct ((f <=? 0) || (ONE <? f)); [apply HS_fail|].
+    apply HS_bind; [apply HS_of_inv; jc_auto c|]. intros [sv vi].
+    apply HS_bind; [apply jc_slash_shares_loop|]. intros vs'.
+    apply HS_bind; [apply HS_of_inv; jc_auto c|]. intros _.
+    apply HS_bind; [apply jc_slash_redelegations|]. intros _.
+    apply jc_slash_undelegations.
+  Qed.
+
+  (* ---------- end of block: matured unbondings are paid ---------- *)
+  Definition pay_entry (ct : Z) (u : Undel) : M unit :=
+    c <- coin1 (u_denom u) (u_amount u) ;;
+    bank_send ACC_ALLIANCE (u_del u) c ;;;
+    modify (fun s => set_undelidx (kdel (undelidx s) [u_val u; ct; u_denom u; u_del u]) s).
+
+  Lemma jc_pay_entries ct Q0 : forall entries c,
+    hoare (JCQ c Q0) (mfor entries (pay_entry ct)) (fun _ => JCQ (c - lsum entries) Q0) (fun _ => True).
+  Proof.
+    induction entries as [|u entries IH]; intros c; cbn [mfor].
+    - apply hoare_ret. intros s H. rewrite lsum_nil, Z.sub_0_r. exact H.
+    - eapply hoare_bind with (Q1 := fun _ => JCQ (c - (if u_denom u =? d then u_amount u else 0)) Q0).
+      + unfold pay_entry.
+        eapply hoare_bind with (Q1 := fun coins s => JCQ c Q0 s /\ coins_nonneg coins /\ csum coins = (if u_denom u =? d then u_amount u else 0)).
+        { intros s Hs. pose proof (coin1_nonneg (u_denom u) (u_amount u) s) as H. unfold coin1 in *.
+          destruct (u_amount u <? 0); cbn in *; [exact I|]. destruct H as [H1 H2]. auto. }
+        intros coins.
+        eapply hoare_bind with (Q1 := fun _ s => JCQ (c - (if u_denom u =? d then u_amount u else 0)) Q0 s).
+        { intros s (HJ & Hn & Hcs). rewrite <- Hcs.
+          exact (jcq_of_hoare c (c - csum coins) Q0 _ _ (jc_send_from_custody c (u_del u) coins Hn)
+                   (fun Q => ltac:(inv_deep (Qf Q))) s HJ). }
+        intros _. apply hoare_modify. intros s [[Hi Hc] HQ]. split; [|exact HQ]. split; [inv_goal Hi | exact Hc].
+      + intros _. intros s Hs. pose proof (IH _ s Hs) as H. destruct (mfor entries (pay_entry ct) s); auto.
+        destruct H as [H HQ]. split; [|exact HQ]. eapply JC_weaken; [|exact H]. rewrite lsum_cons. lia.
+  Qed.
+
+  Lemma jc_undel_loop : forall q Q c, ksorted Q -> ksorted q ->
+    Forall (fun kv => exists ct dl, fst kv = [ct; dl]) q ->
+    Forall (fun kv => kget Q (fst kv) = Some (snd kv)) q ->
+    hoare (JCQ c Q) (mfor q undel_body) (fun _ => JC c) (fun _ => True).
+  Proof.
+    induction q as [|kv q IH]; intros Q c HQs Hqs Hshape Hall; cbn [mfor].
+    - apply hoare_ret. intros s [H _]; exact H.
+    - inversion Hall as [|? ? Hkv Hall']; subst. inversion Hshape as [|? ? (ct & dl & Hk) Hshape']; subst.
+      apply ksorted_inv' in Hqs. destruct Hqs as [Hqs Hlt].
+      destruct kv as [k l]; cbn [fst snd] in *; subst k.
+      eapply hoare_bind with (Q1 := fun _ => JCQ c (kdel Q [ct; dl])).
+      + unfold undel_body. cbn [fst snd].
+        eapply hoare_bind; [apply (jc_pay_entries ct Q l c)|]. intros ?; cbv beta.
+        apply hoare_modify. intros s [[Hi Hc] HQ]. split; [|cbn; rewrite HQ; reflexivity].
+        split; [inv_goal Hi|]. unfold sl in *. change (B (set_undelq _ s)) with (B s). change (T (set_undelq _ s)) with (T s).
+        rewrite U_del_bucket by exact Hi. rewrite HQ, Hkv. lia.
+      + intros _. apply IH; [apply ksorted_kdel; exact HQs | exact Hqs | exact Hshape'|].
+        rewrite Forall_forall in *. intros kv' Hin. rewrite kget_kdel_other; [apply Hall'; exact Hin | exact HQs|].
+        specialize (Hlt kv' Hin). intros E. rewrite E in Hlt. exact (klt_irrefl _ Hlt).
+  Qed.
+
+  Lemma jc_complete_unbondings c : HS c complete_unbondings.
+  Proof.
+    rewrite complete_unbondings_unfold.
+    apply HS_bind; [apply HS_of_inv, inv_gets|]. intros t.
+    apply hoare_bind_gets_eq. intros s0 Hs0.
+    set (q := kfilter (fun k => match k with [ct; _] => ct <? t | _ => false end) (undelq s0)).
+    pose proof (Inv_sorted_undelq _ (proj1 Hs0)) as HQs.
+    assert (Hshape : Forall (fun kv => exists ct dl, fst kv = [ct; dl]) q).
+    { apply Forall_forall. intros kv Hin. unfold q, kfilter in Hin. apply filter_In in Hin. destruct Hin as [_ H].
+      destruct kv as [k l]; cbn [fst] in *. destruct k as [|ct [|dl [|? ?]]]; try discriminate. eauto. }
+    assert (Hall : Forall (fun kv => kget (undelq s0) (fst kv) = Some (snd kv)) q).
+    { apply Forall_forall. intros kv Hin. unfold q, kfilter in Hin. apply filter_In in Hin. destruct Hin as [Hin _].
+      apply kget_in_sorted; assumption. }
+    assert (Hqs : ksorted q) by (unfold q, kfilter; apply ksorted_filter; exact HQs).
+    apply (hoare_pre _ _ (JCQ c (undelq s0))); [intros s ->; split; [exact Hs0 | reflexivity]|].
+    eapply hoare_bind; [apply (jc_undel_loop q (undelq s0) c HQs Hqs Hshape Hall)|]. intros ?; cbv beta.
+    (* the sweep burns the staking denom only *)
+    unfold sweep. apply HS_bind; [apply HS_of_inv, inv_gets|]. intros b. destruct (b =? 0); [apply HS_ret|].
+    unfold bank_burn. apply HS_bind.
+    - eapply hoare_post; [| |apply (jc_bank_sub_custody [(BOND_DENOM, b)] c)]; [|auto].
+      intros ? s H. unfold csum in H; cbn [fold_right fst snd] in H. assert (E : BOND_DENOM =? d = false) by (apply Z.eqb_neq; congruence). rewrite E in H.
+      replace (c - (0 + 0)) with c in H by lia. exact H.
+    - intros _. apply HS_of_inv. jc_auto c.
+  Qed.
+
+  (* ---------- end of block: the asset list EndBlocker carries in memory ---------- *)
+  (* every element agrees with the store on the staked total; denoms are those of D0 (distinct) *)
+  Definition coh1 (s : State) (a : Asset) : Prop := exists a0, kget (assets s) [a_denom a] = Some a0 /\ a_tokens a0 = a_tokens a.
+  Definition CohL (l : list Asset) (s : State) : Prop := Forall (coh1 s) l.
+  Definition JL (c : Z) (D0 : list Z) (l : list Asset) (s : State) : Prop :=
+    JC c s /\ CohL l s /\ map a_denom l = D0.
+
+  Lemma coh1_frame s s' a : assets s' = assets s -> coh1 s a -> coh1 s' a.
+  Proof. unfold coh1; intros E H; rewrite E; exact H. Qed.
+  Lemma CohL_frame s s' l : assets s' = assets s -> CohL l s -> CohL l s'.
+  Proof. intros E H. unfold CohL in *. eapply Forall_impl; [|exact H]. intros a; apply coh1_frame; exact E. Qed.
+
+  Lemma coh1_set_other s a' b : ksorted (assets s) -> a_denom b <> a_denom a' ->
+    coh1 s b -> coh1 (set_assets (kset (assets s) [a_denom a'] a') s) b.
+  Proof. intros Hs Hne (a0 & Hg & Ht). exists a0. split; [|exact Ht]. cbn. rewrite kget_kset_other; [exact Hg | exact Hs | congruence]. Qed.
+  Lemma coh1_set_same s a' : coh1 (set_assets (kset (assets s) [a_denom a'] a') s) a'.
+  Proof. exists a'. split; [cbn; apply kget_kset_same | reflexivity]. Qed.
+
+  (* replacing the element in the middle by one of the same denom that was just written *)
+  Lemma CohL_step s acc a a' rest : ksorted (assets s) -> NoDup (map a_denom (acc ++ a :: rest)) -> a_denom a' = a_denom a ->
+    CohL (acc ++ a :: rest) s -> CohL ((acc ++ [a']) ++ rest) (set_assets (kset (assets s) [a_denom a'] a') s).
+  Proof.
+    intros Hs Hnd Hd H. unfold CohL in *. rewrite <- app_assoc. cbn [app].
+    apply Forall_app in H. destruct H as [H1 H2]. inversion H2 as [|? ? _ H3]; subst.
+    rewrite map_app in Hnd. cbn [map] in Hnd.
+    apply Forall_app; split; [|constructor; [apply coh1_set_same|]].
+    - rewrite Forall_forall in *. intros b Hb. apply coh1_set_other; [exact Hs | | apply H1; exact Hb].
+      rewrite Hd. intros E. apply NoDup_remove_2 in Hnd. apply Hnd. apply in_or_app. left. rewrite <- E. apply in_map; exact Hb.
+    - rewrite Forall_forall in *. intros b Hb. apply coh1_set_other; [exact Hs | | apply H3; exact Hb].
+      rewrite Hd. intros E. apply NoDup_remove_2 in Hnd. apply Hnd. apply in_or_app. right. rewrite <- E. apply in_map; exact Hb.
+  Qed.
+
+  (* T after writing an element that agrees with the store except for the total *)
+  Lemma sl_set_coherent s a a' c x : Inv s -> coh1 s a -> a_denom a' = a_denom a -> a_tokens a' = a_tokens a - x ->
+    c <= sl s -> c + (if a_denom a =? d then x else 0) <= sl (set_assets (kset (assets s) [a_denom a'] a') s).
+  Proof.
+    intros Hi (a0 & Hg & Ht0) Hd Ht Hc. unfold sl in *. rewrite T_set_asset by exact Hi.
+    change (B (set_assets _ s)) with (B s). change (U (set_assets _ s)) with (U s). rewrite Hd.
+    destruct (a_denom a =? d) eqn:E; [|lia].
+    apply Z.eqb_eq in E. rewrite E in Hg. rewrite (T_of_kget s a0 (Inv_WK _ Hi) Hg) in Hc. lia.
+  Qed.
+
+  Lemma jl_set_asset c D0 acc a a' rest x : a_denom a' = a_denom a -> a_tokens a' = a_tokens a - x -> NoDup D0 ->
+    hoare (JL c D0 (acc ++ a :: rest)) (set_asset a')
+          (fun _ => JL (c + (if a_denom a =? d then x else 0)) D0 ((acc ++ [a']) ++ rest)) (fun _ => True).
+  Proof.
+    intros Hd Ht Hnd. unfold set_asset. apply hoare_modify. intros s ([Hi Hc] & Hcoh & Hmap).
+    assert (Hc1 : coh1 s a) by (unfold CohL in Hcoh; apply Forall_app in Hcoh; destruct Hcoh as [_ H]; inversion H; assumption).
+    split; [split; [inv_goal Hi | apply (sl_set_coherent s a a' c x Hi Hc1 Hd Ht Hc)]|]. split.
+    - apply (CohL_step s acc a a' rest); [apply Inv_sorted_assets; exact Hi | rewrite Hmap; exact Hnd | exact Hd | exact Hcoh].
+    - rewrite <- Hmap. rewrite <- app_assoc. rewrite !map_app. cbn [map app]. rewrite Hd. reflexivity.
+  Qed.
+
+  (* programs that do not write assets keep JL *)
+  Lemma JL_frame c D0 l A (m : M A) : HS c m -> (forall A0, inv (JA A0) m) ->
+    hoare (JL c D0 l) m (fun _ => JL c D0 l) (fun _ => True).
+  Proof.
+    intros H1 H2 s (HJ & Hcoh & Hmap). specialize (H1 s HJ). specialize (H2 (assets s) s eq_refl). unfold JA in H2.
+    destruct (m s); auto. split; [exact H1|]. split; [eapply CohL_frame; eauto | exact Hmap].
+  Qed.
+  Lemma JL_weaken c c' D0 l s : c' <= c -> JL c D0 l s -> JL c' D0 l s.
+  Proof. intros Hle (H1 & H2 & H3). split; [eapply JC_weaken; eauto | auto]. Qed.
+
+  (* InitializeAllianceAssets *)
+  Lemma jl_initialize_assets c D0 t : NoDup D0 -> forall rest acc,
+    hoare (JL c D0 (acc ++ rest))
+      (mfold rest acc (fun acc a =>
+         if a_init a || negb (rewards_started a t) then ret (acc ++ [a])
+         else let a' := set_a_init true a in set_asset a' ;;; ret (acc ++ [a'])))
+      (fun out => JL c D0 out) (fun _ => True).
+  Proof.
+    intros Hnd. induction rest as [|a rest IH]; intros acc; cbn [mfold].
+    - apply hoare_ret. intros s H. rewrite app_nil_r in H. exact H.
+    - destruct (a_init a || negb (rewards_started a t)).
+      + unfold bind at 1, ret at 1. intros s H. apply (IH (acc ++ [a])). rewrite <- app_assoc. exact H.
+      + cbv zeta. unfold bind at 1.
+        intros s H. pose proof (jl_set_asset c D0 acc a (set_a_init true a) rest 0 eq_refl ltac:(cbn; lia) Hnd s H) as H1.
+        unfold bind. destruct (set_asset (set_a_init true a) s) as [x s1|? ?|? ?]; auto. unfold ret at 1.
+        apply (IH (acc ++ [set_a_init true a])). eapply JL_weaken; [|exact H1]. destruct (a_denom a =? d); lia.
+  Qed.
+
+  (* ---------- end of block: take rate ---------- *)
+  Lemma csum_cadd1 coins dn x : csum (cadd1 coins dn x) = csum coins + (if dn =? d then x else 0).
+  Proof.
+    induction coins as [|[d' a'] coins IH]; cbn [cadd1].
+    - destruct (x =? 0) eqn:E; [apply Z.eqb_eq in E; subst; unfold csum; cbn; destruct (dn =? d); lia|].
+      unfold csum; cbn. lia.
+    - destruct (dn <? d') eqn:E1.
+      + destruct (x =? 0) eqn:E; [apply Z.eqb_eq in E; subst; destruct (dn =? d); lia|]. rewrite !csum_cons. lia.
+      + destruct (dn =? d') eqn:E2.
+        * apply Z.eqb_eq in E2; subst d'. destruct (x + a' =? 0) eqn:E; rewrite ?csum_cons.
+          -- apply Z.eqb_eq in E. destruct (dn =? d); lia.
+          -- destruct (dn =? d); lia.
+        * rewrite !csum_cons, IH. lia.
+  Qed.
+
+  Lemma jc_send_from_custody_other c to coins : to <> ACC_ALLIANCE ->
+    hoare (JC c) (bank_send ACC_ALLIANCE to coins) (fun _ => JC (c - csum coins)) (fun _ => True).
+  Proof.
+    intros Hto. unfold bank_send. eapply hoare_bind; [apply jc_bank_sub_custody|]. intros ?; cbv beta.
+    apply inv_hoare_true. apply jc_bank_add_other. exact Hto.
+  Qed.
+
+  Definition take_body (t n : Z) (acc : list Asset * Coins * Z) (a : Asset) : M (list Asset * Coins * Z) :=
+    let '(out, coins, cnt) := acc in
+    if (0 <? a_tokens a) && (0 <? a_take a) && rewards_started a t then
+      m <- opt_or_panic P_OVERFLOW (dpow (ONE - a_take a) n) ;;
+      let na := dmul_int m (a_tokens a) in
+      if na <=? ONE then ret (out ++ [a], coins, cnt + 1)
+      else
+        let a' := set_a_tokens (dtrunc na) a in
+        (if a_tokens a - a_tokens a' <? 0 then panic P_NEG_COIN else ret tt) ;;;
+        set_asset a' ;;;
+        ret (out ++ [a'], cadd1 coins (a_denom a) (a_tokens a - a_tokens a'), cnt + 1)
+    else ret (out ++ [a], coins, cnt).
+
+  Lemma jl_take_body c D0 t n out coins cnt a rest : NoDup D0 ->
+    hoare (JL (c + csum coins) D0 (out ++ a :: rest)) (take_body t n (out, coins, cnt) a)
+      (fun r s => exists (a' : Asset) (coins' : Coins) (cnt' : Z), r = (out ++ [a'], coins', cnt') /\
+                  JL (c + csum coins') D0 ((out ++ [a']) ++ rest) s /\ (0 <= csum coins -> 0 <= csum coins'))
+      (fun _ => True).
+  Proof.
+    intros Hnd. unfold take_body.
+    assert (Hsame : forall (cnt' : Z) s, JL (c + csum coins) D0 (out ++ a :: rest) s ->
+              exists (a' : Asset) (coins' : Coins) (cnt'0 : Z), (out ++ [a], coins, cnt') = (out ++ [a'], coins', cnt'0) /\
+                JL (c + csum coins') D0 ((out ++ [a']) ++ rest) s /\ (0 <= csum coins -> 0 <= csum coins')).
+    { intros cnt' s H. exists a, coins, cnt'. split; [reflexivity|]. split; [rewrite <- app_assoc; exact H | auto]. }
+    destruct ((0 <? a_tokens a) && (0 <? a_take a) && rewards_started a t); [|apply hoare_ret; apply Hsame].
+    eapply hoare_bind with (Q1 := fun _ => JL (c + csum coins) D0 (out ++ a :: rest)).
+    { destruct (dpow (ONE - a_take a) n); cbn [opt_or_panic]; [apply hoare_ret; auto | apply hoare_panic; auto]. }
+    intros m. cbv zeta. destruct (dmul_int m (a_tokens a) <=? ONE); [apply hoare_ret; apply Hsame|].
+    set (a' := set_a_tokens (dtrunc (dmul_int m (a_tokens a))) a).
+    destruct (a_tokens a - a_tokens a' <? 0) eqn:Eneg.
+    { intros s Hs. unfold bind at 1, panic. exact I. }
+    apply Z.ltb_ge in Eneg.
+    eapply hoare_bind with (Q1 := fun _ => JL (c + csum coins) D0 (out ++ a :: rest)); [apply hoare_ret; auto|]. intros _.
+    eapply hoare_bind.
+    { apply (jl_set_asset (c + csum coins) D0 out a a' rest (a_tokens a - a_tokens a') eq_refl ltac:(lia) Hnd). }
+    intros ?; cbv beta. apply hoare_ret. intros s H.
+    exists a', (cadd1 coins (a_denom a) (a_tokens a - a_tokens a')), (cnt + 1). split; [reflexivity|].
+    rewrite csum_cadd1. split; [|destruct (a_denom a =? d); lia].
+    replace (c + (csum coins + (if a_denom a =? d then a_tokens a - a_tokens a' else 0)))
+      with (c + csum coins + (if a_denom a =? d then a_tokens a - a_tokens a' else 0)) by lia. exact H.
+  Qed.
+
+  Lemma jl_take_loop c D0 t n : NoDup D0 -> forall rest out coins cnt, 0 <= csum coins ->
+    hoare (JL (c + csum coins) D0 (out ++ rest)) (mfold rest (out, coins, cnt) (take_body t n))
+      (fun r s => JL (c + csum (snd (fst r))) D0 (fst (fst r)) s /\ 0 <= csum (snd (fst r))) (fun _ => True).
+  Proof.
+    intros Hnd. induction rest as [|a rest IH]; intros out coins cnt Hpos; cbn [mfold].
+    - apply hoare_ret. intros s H. cbn. rewrite app_nil_r in H. auto.
+    - eapply hoare_bind; [apply (jl_take_body c D0 t n out coins cnt a rest Hnd)|]. intros r; cbv beta.
+      intros s (a' & coins' & cnt' & -> & HJ & Hp). apply (IH (out ++ [a']) coins' cnt' (Hp Hpos) s HJ).
+  Qed.
+
+  Lemma deduct_take_rate_unfold last als :
+    deduct_take_rate last als =
+    (t <- gets now ;;
+     if last =? ZERO_TIME then set_last_claim t ;;; ret als
+     else
+       iv <- gets (fun s => p_interval (params s)) ;;
+       if iv =? 0 then panic P_DIV_ZERO_INTERVAL
+       else
+         let n := Z.quot (t - last) iv in
+         '(als', coins, cnt) <- mfold als ([], [], 0) (take_body t n) ;;
+         if cnt =? 0 then set_last_claim t ;;; ret als'
+         else if negb (length coins =? 0)%nat then
+           bank_send ACC_ALLIANCE ACC_FEE coins ;;;
+           set_last_claim (last + iv * n) ;;;
+           ret als'
+         else ret als').
+  Proof. reflexivity. Qed.
+
+  Lemma jl_deduct_take_rate c D0 last als : NoDup D0 ->
+    hoare (JL c D0 als) (deduct_take_rate last als) (fun _ => JC c) (fun _ => True).
+  Proof.
+    intros Hnd. rewrite deduct_take_rate_unfold.
+    assert (HJ : forall c' l s, JL c' D0 l s -> JC c' s) by (intros c' l s (H & _); exact H).
+    eapply hoare_bind with (Q1 := fun _ => JL c D0 als); [apply hoare_gets; auto|]. intros t.
+    destruct (last =? ZERO_TIME).
+    { apply (hoare_pre _ _ (JC c)); [apply HJ|]. apply HS_of_inv. jc_auto c. }
+    eapply hoare_bind with (Q1 := fun _ => JL c D0 als); [apply hoare_gets; auto|]. intros iv.
+    destruct (iv =? 0); [apply hoare_panic; auto|]. cbv zeta.
+    eapply hoare_bind.
+    { apply (hoare_pre _ _ (JL (c + csum []) D0 ([] ++ als))); [intros s H; unfold csum; cbn; rewrite Z.add_0_r; exact H|].
+      apply (jl_take_loop c D0 t (Z.quot (t - last) iv) Hnd als [] [] 0). unfold csum; cbn; lia. }
+    intros [[als' coins] cnt]. cbn [fst snd].
+    apply (hoare_pre _ _ (fun s => JC (c + csum coins) s /\ 0 <= csum coins)); [intros s [H1 H2]; split; [eapply HJ; exact H1 | exact H2]|].
+    assert (Hw : forall s, JC (c + csum coins) s /\ 0 <= csum coins -> JC c s) by (intros s [H1 H2]; eapply JC_weaken; [|exact H1]; lia).
+    destruct (cnt =? 0).
+    { apply (hoare_pre _ _ (JC c)); [exact Hw|]. apply HS_of_inv. jc_auto c. }
+    destruct (negb (length coins =? 0)%nat).
+    - eapply hoare_bind with (Q1 := fun _ => JC c).
+      + intros s [H _]. pose proof (jc_send_from_custody_other (c + csum coins) ACC_FEE coins ltac:(acc_ne) s H) as H1.
+        destruct (bank_send ACC_ALLIANCE ACC_FEE coins s); auto. replace c with (c + csum coins - csum coins) by lia. exact H1.
+      + intros _. apply HS_of_inv. jc_auto c.
+    - apply hoare_ret. intros s H. apply Hw; exact H.
+  Qed.
+
+  Lemma jl_deduct_assets_hook c D0 als : NoDup D0 ->
+    hoare (JL c D0 als) (deduct_assets_hook als) (fun _ => JC c) (fun _ => True).
+  Proof.
+    intros Hnd. unfold deduct_assets_hook.
+    eapply hoare_bind with (Q1 := fun _ => JL c D0 als); [apply hoare_gets; auto|]. intros p.
+    eapply hoare_bind with (Q1 := fun _ => JL c D0 als); [apply hoare_gets; auto|]. intros t.
+    destruct (p_last p + p_interval p <? t); [apply jl_deduct_take_rate; exact Hnd|].
+    apply hoare_ret. intros s (H & _); exact H.
+  Qed.
+
+  (* ---------- asset parameter updates (governance and decay): the total is read and written back ---------- *)
+  Lemma jc_update_alliance_asset c na : HS c (update_alliance_asset na).
+  Proof.
+    unfold update_alliance_asset, get_asset. apply hoare_bind_gets_eq. intros s0 Hs0.
+    destruct (kget (assets s0) [a_denom na]) as [a|] eqn:Eg; [|apply hoare_fail; auto].
+    pose proof (a_denom_of_kget s0 (a_denom na) a (proj1 Hs0) Eg) as Hda.
+    destruct ((a_weight na <? a_wmin na) || (a_wmax na <? a_weight na)); [apply hoare_fail; auto|].
+    apply (hoare_pre _ _ (fun s => JC c s /\ Rk (a_denom na) a (assets s))); [intros s ->; split; [exact Hs0 | exact Eg]|].
+    eapply hoare_bind with (Q1 := fun _ s => JC c s /\ Rk (a_denom na) a (assets s)).
+    { apply (HS_with_assets c _ (Rk (a_denom na) a)); [|assets_frame].
+      destruct (negb (a_weight na =? a_weight a)); [|apply HS_ret].
+      apply HS_bind; [apply HS_of_inv, inv_gets|]. intros infos.
+      apply HS_bind; [|intros _; apply HS_of_inv; jc_auto c].
+      apply HS_mfor_swallow. intros kv. destruct (fst kv) as [|v [|]]; try apply inv_ret.
+      apply inv_bind; [jc_auto c|]. intros [sv vi].
+      apply inv_bind; [apply jc_claim_validator_rewards|]. intros vi1.
+      jc_auto c. }
+    intros _.
+    eapply hoare_bind with (Q1 := fun _ s => JC c s /\ Rk (a_denom na) a (assets s)); [apply hoare_gets; auto|]. intros t.
+    eapply hoare_post; [| |apply (jc_set_asset_delta c (a_denom na) a _ 0)]; cbn; try lia; auto.
+    intros _ s [H _]. destruct (a_denom na =? d); rewrite Z.add_0_r in H; exact H.
+  Qed.
+
+  Lemma jc_reward_weight_change_hook c als : HS c (reward_weight_change_hook als).
+  Proof.
+    unfold reward_weight_change_hook. apply HS_bind; [apply HS_of_inv, inv_gets|]. intros t.
+    apply HS_mfold. intros acc a.
+    destruct ((a_interval a =? 0) || (a_rate a =? ONE)); [apply HS_ret|].
+    destruct (t <? a_last a + a_interval a); [apply HS_ret|]. cbv zeta.
+    apply HS_bind; [apply HS_of_inv, inv_opt_or_panic|]. intros m.
+    apply HS_bind; [apply HS_of_inv, inv_opt_or_panic|]. intros w0.
+    apply HS_bind; [apply HS_of_inv; jc_auto c|]. intros _.
+    apply HS_bind; [apply jc_update_alliance_asset|]. intros _. apply HS_ret.
+  Qed.
+
+  (* ---------- rebalancing: only the staking denom moves ---------- *)
+  Lemma csum_bond amt : csum [(BOND_DENOM, amt)] = 0.
+  Proof. unfold csum; cbn [fold_right fst snd]. assert (E : BOND_DENOM =? d = false) by (apply Z.eqb_neq; congruence). rewrite E. lia. Qed.
+  Lemma csum_coin1_bond amt s : match coin1 BOND_DENOM amt s with Ok coins _ => csum coins = 0 | _ => True end.
+  Proof.
+    unfold coin1. destruct (amt <? 0); cbn; [exact I|]. destruct (amt =? 0); [reflexivity | apply csum_bond].
+  Qed.
+  Lemma jc_withdraw_oracle_hs c v : HS c (withdraw_oracle v).
+  Proof.
+    eapply hoare_post; [| |apply jc_withdraw_oracle]; [|auto].
+    intros coins s [H Hn]. eapply JC_weaken; [|exact H]. pose proof (csum_nonneg coins Hn). lia.
+  Qed.
+  Lemma jc_bank_mint_bond c amt : HS c (bank_mint ACC_ALLIANCE [(BOND_DENOM, amt)]).
+  Proof.
+    unfold bank_mint. apply HS_bind; [apply HS_of_inv; jc_auto c|]. intros _.
+    eapply hoare_post; [| |apply (jc_bank_add_custody [(BOND_DENOM, amt)] c)]; [|intros ? []].
+    intros ? s H. rewrite csum_bond, Z.add_0_r in H. exact H.
+  Qed.
+  (* sending staking-denom coins out of custody *)
+  Lemma jc_send_bond c to amt : to <> ACC_ALLIANCE ->
+    HS c (cc <- coin1 BOND_DENOM amt ;; bank_send ACC_ALLIANCE to cc).
+  Proof.
+    intros Hto. eapply hoare_bind with (Q1 := fun coins s => JC c s /\ csum coins = 0).
+    - intros s Hs. pose proof (csum_coin1_bond amt s) as H. unfold coin1 in *. destruct (amt <? 0); cbn in *; auto.
+    - intros coins s [Hs Hz]. pose proof (jc_send_from_custody_other c to coins Hto s Hs) as H.
+      destruct (bank_send ACC_ALLIANCE to coins s); auto. rewrite Hz, Z.sub_0_r in H. exact H.
+  Qed.
+
+  Lemma jc_staking_delegate c v sv amt : HS c (staking_delegate v sv amt).
+  Proof.
+    unfold staking_delegate. destruct ((sv_tokens sv =? 0) && (0 <? sv_shares sv)); [apply HS_fail|].
+    apply HS_bind; [apply HS_of_inv, inv_gets|]. intros od.
+    apply HS_bind.
+    { destruct od; [|apply HS_ret]. unfold distr_before_shares_modified. apply HS_bind; [apply jc_withdraw_oracle_hs | intros; apply HS_ret]. }
+    intros _.
+    (* c <- coin1 ...;; bank_send ... ;;; rest  =  (c <- coin1 ;; bank_send) ;;; rest, up to the monad laws: go through directly *)
+    eapply hoare_bind with (Q1 := fun coins s => JC c s /\ csum coins = 0).
+    { intros s Hs. pose proof (csum_coin1_bond amt s) as H. unfold coin1 in *. destruct (amt <? 0); cbn in *; auto. }
+    intros coins.
+    eapply hoare_bind with (Q1 := fun _ => JC c).
+    { intros s [Hs Hz].
+      assert (Hto : (if is_bonded sv then ACC_BONDED else ACC_NOTBONDED) <> ACC_ALLIANCE) by (destruct (is_bonded sv); acc_ne).
+      pose proof (jc_send_from_custody_other c _ coins Hto s Hs) as H.
+      destruct (bank_send ACC_ALLIANCE _ coins s); auto. rewrite Hz, Z.sub_0_r in H. exact H. }
+    intros _. apply HS_of_inv. jc_auto c.
+  Qed.
+
+  Lemma jc_staking_unbond c v sh : HS c (staking_unbond v sh).
+  Proof.
+    unfold staking_unbond. apply HS_bind; [apply HS_of_inv, inv_gets|]. intros od.
+    destruct od as [dsh|]; [|apply HS_fail].
+    apply HS_bind.
+    { unfold distr_before_shares_modified. apply HS_bind; [apply jc_withdraw_oracle_hs | intros; apply HS_ret]. }
+    intros _. apply HS_of_inv. jc_auto c.
+  Qed.
+
+  Lemma jc_rebalance c als : HS c (rebalance_bond_token_weights als).
+  Proof.
+    unfold rebalance_bond_token_weights.
+    apply HS_bind; [apply HS_of_inv, inv_gets|]. intros s0.
+    apply HS_bind; [apply HS_of_inv, inv_gets|]. intros t.
+    apply HS_bind.
+    { apply HS_of_inv. apply inv_mfold_swallow. intros acc kv. jc_auto c. }
+    intros [bonded unb]. apply HS_mfor. intros [[v sv] vi].
+    apply HS_bind; [apply HS_of_inv, inv_gets|]. intros od.
+    apply HS_bind; [apply HS_of_inv; jc_auto c|]. intros expected.
+    match goal with |- HS _ (if ?b then _ else _) => destruct b end.
+    - cbv zeta. match goal with |- HS _ (if ?b then _ else _) => destruct b end; [apply HS_ret|].
+      apply HS_bind; [apply jc_bank_mint_bond|]. intros _.
+      apply HS_bind; [apply HS_of_inv, jc_claim_validator_rewards|]. intros _.
+      apply jc_staking_delegate.
+    - match goal with |- HS _ (if ?b then _ else _) => destruct b end; [|apply HS_ret].
+      cbv zeta. match goal with |- HS _ (if ?b then _ else _) => destruct b end; [apply HS_ret|].
+      apply HS_bind; [apply HS_of_inv; jc_auto c|]. intros sh.
+      apply HS_bind; [apply HS_of_inv, jc_claim_validator_rewards|]. intros _.
+      apply HS_bind; [apply jc_staking_unbond|]. intros tok.
+      apply HS_bind; [apply HS_of_inv; jc_auto c|]. intros coins.
+      apply HS_of_inv. unfold bank_burn. jc_auto c.
+  Qed.
+
+  (* ---------- the whole end of block ---------- *)
+  Lemma NoDup_denoms s : Inv s -> NoDup (map a_denom (map snd (assets s))).
+  Proof.
+    intros Hi. pose proof (Inv_sorted_assets _ Hi) as Hs. pose proof (Inv_WK _ Hi) as Hw. unfold WK, kall in Hw.
+    induction (assets s) as [|[k a] m IH]; cbn; [constructor|].
+    apply ksorted_inv in Hs. destruct Hs as [Hs Hall]. inversion Hw as [|? ? Hk Hw']; subst. cbn in Hk.
+    constructor; [|apply IH; assumption].
+    intros Hin. rewrite map_map in Hin. apply in_map_iff in Hin. destruct Hin as ([k' a'] & Hd & Hin). cbn in Hd.
+    rewrite Forall_forall in Hall, Hw'. specialize (Hall _ Hin). specialize (Hw' _ Hin). cbn in Hall, Hw'.
+    subst k k'. rewrite Hd in Hall. exact (klt_irrefl _ Hall).
+  Qed.
+  Lemma CohL_all s : Inv s -> CohL (map snd (assets s)) s.
+  Proof.
+    intros Hi. pose proof (Inv_sorted_assets _ Hi) as Hs. pose proof (Inv_WK _ Hi) as Hw.
+    unfold CohL. apply Forall_forall. intros a Hin. apply in_map_iff in Hin. destruct Hin as ([k a'] & <- & Hin). cbn.
+    exists a'. split; [|reflexivity].
+    pose proof (kget_in_sorted _ _ Hs Hin) as Hg. cbn in Hg.
+    unfold WK, kall in Hw. rewrite Forall_forall in Hw. specialize (Hw _ Hin). cbn in Hw. subst k. exact Hg.
+  Qed.
+
+  Lemma jc_end_blocker c : HS c end_blocker.
+  Proof.
+    unfold end_blocker.
+    apply HS_bind; [apply HS_of_inv; unfold complete_redelegations; jc_auto c|]. intros _.
+    apply HS_bind; [apply jc_complete_unbondings|]. intros _.
+    unfold all_assets. apply hoare_bind_gets_eq. intros s0 Hs0.
+    set (als := map snd (assets s0)). set (D0 := map a_denom als).
+    assert (Hnd : NoDup D0) by (apply NoDup_denoms; exact (proj1 Hs0)).
+    apply (hoare_pre _ _ (JL c D0 ([] ++ als))); [intros s ->; split; [exact Hs0 | split; [apply CohL_all; exact (proj1 Hs0) | reflexivity]]|].
+    eapply hoare_bind.
+    { unfold initialize_assets. eapply hoare_bind with (Q1 := fun _ => JL c D0 ([] ++ als)); [apply hoare_gets; auto|]. intros t.
+      apply (jl_initialize_assets c D0 t Hnd als []). }
+    intros als1; cbv beta.
+    eapply hoare_bind; [apply (jl_deduct_assets_hook c D0 als1 Hnd)|]. intros als2; cbv beta.
+    apply HS_bind; [apply jc_reward_weight_change_hook|]. intros als3.
+    unfold rebalance_hook. apply HS_bind; [apply HS_of_inv, inv_gets|]. intros f.
+    destruct f; [|apply HS_ret]. apply HS_bind; [apply HS_of_inv; jc_auto c|]. intros _. apply jc_rebalance.
+  Qed.
+
+  (* ---------- messages ---------- *)
+  Lemma jc_get_alliance_validator c v : inv (JC c) (get_alliance_validator v).
+  Proof. jc_auto c. Qed.
+
+  Lemma jc_msg_delegate c del v dn amt : del <> ACC_ALLIANCE -> HS c (msg_delegate del v dn amt).
+  Proof.
+    intros Hdel. unfold msg_delegate. destruct (amt <=? 0) eqn:E; [apply HS_fail|]. apply Z.leb_gt in E.
+    apply HS_bind; [apply HS_of_inv, jc_get_alliance_validator|]. intros [sv vi]. apply jc_k_delegate; assumption.
+  Qed.
+  Lemma jc_msg_undelegate c del v dn amt : HS c (msg_undelegate del v dn amt).
+  Proof.
+    unfold msg_undelegate. destruct (amt <=? 0); [apply HS_fail|].
+    apply HS_bind; [apply HS_of_inv, jc_get_alliance_validator|]. intros [sv vi]. apply jc_k_undelegate.
+  Qed.
+  Lemma jc_msg_redelegate c del src dst dn amt : HS c (msg_redelegate del src dst dn amt).
+  Proof.
+    unfold msg_redelegate. destruct (amt <=? 0); [apply HS_fail|].
+    apply HS_bind; [apply HS_of_inv, jc_get_alliance_validator|]. intros [sv svi].
+    apply HS_bind; [apply HS_of_inv, jc_get_alliance_validator|]. intros [sv2 dvi]. apply jc_k_redelegate.
+  Qed.
+  Lemma jc_msg_claim c del v dn : HS c (msg_claim del v dn).
+  Proof.
+    unfold msg_claim. apply HS_bind; [apply HS_of_inv, jc_get_alliance_validator|]. intros [sv vi].
+    apply HS_bind; [apply jc_claim_any | intros; apply HS_ret].
+  Qed.
+
+  (* a brand-new asset starts with nothing staked *)
+  Lemma jc_set_asset_new c a : a_tokens a = 0 ->
+    hoare (fun s => JC c s /\ kget (assets s) [a_denom a] = None) (set_asset a) (fun _ => JC c) (fun _ => True).
+  Proof.
+    intros Ht. unfold set_asset. apply hoare_modify. intros s [[Hi Hc] Hn]. split; [inv_goal Hi|].
+    unfold sl in *. rewrite T_set_asset by exact Hi.
+    change (B (set_assets _ s)) with (B s). change (U (set_assets _ s)) with (U s).
+    destruct (a_denom a =? d) eqn:E; [|exact Hc]. apply Z.eqb_eq in E. rewrite E in Hn.
+    unfold T, staked_total in Hc. rewrite Hn in Hc. lia.
+  Qed.
+  Lemma jc_msg_create c m : HS c (msg_create_alliance m).
+  Proof.
+    unfold msg_create_alliance.
+    repeat match goal with
+           | |- HS _ (if ?b then _ else _) => destruct b
+           | |- HS _ (match ?x with _ => _ end) => destruct x
+           | |- HS _ (fail _) => apply HS_fail
+           | |- HS _ (panic _) => apply HS_panic
+           end.
+    unfold get_asset. apply hoare_bind_gets_eq. intros s0 Hs0.
+    destruct (kget (assets s0) [m_denom m]) eqn:Eg; [apply hoare_fail; auto|].
+    apply (hoare_pre _ _ (fun s => JC c s /\ kget (assets s) [m_denom m] = None)); [intros s ->; split; assumption|].
+    eapply hoare_bind with (Q1 := fun _ s => JC c s /\ kget (assets s) [m_denom m] = None); [apply hoare_gets; auto|]. intros t.
+    eapply hoare_bind with (Q1 := fun _ s => JC c s /\ kget (assets s) [m_denom m] = None); [apply hoare_gets; auto|]. intros dl.
+    apply (jc_set_asset_new c (mkAsset (m_denom m) _ _ _ _ 0 0 _ _ _ _ false)). reflexivity.
+  Qed.
+  Lemma jc_msg_update c m : HS c (msg_update_alliance m).
+  Proof.
+    unfold msg_update_alliance.
+    repeat match goal with
+           | |- HS _ (if ?b then _ else _) => destruct b
+           | |- HS _ (match ?x with _ => _ end) => destruct x
+           | |- HS _ (fail _) => apply HS_fail
+           | |- HS _ (panic _) => apply HS_panic
+           | |- HS _ (bind (get_asset _) _) => apply HS_bind; [apply HS_of_inv; unfold get_asset; apply inv_gets | intros ?]
+           | |- HS _ (update_alliance_asset _) => apply jc_update_alliance_asset
+           end.
+  Qed.
+  (* deleting an asset: nothing may be staked; the handler only refuses a positive total, so the
+     statement carries "the total is not negative" (C03) as a precondition *)
+  Lemma jc_msg_delete c au dn :
+    hoare (fun s => JC c s /\ 0 <= staked_total s dn) (msg_delete_alliance au dn) (fun _ => JC c) (fun _ => True).
+  Proof.
+    unfold msg_delete_alliance. destruct (dn <? 0); [apply hoare_fail; auto|]. destruct (negb (au =? AUTHORITY)); [apply hoare_fail; auto|].
+    unfold get_asset. apply hoare_bind_gets_eq. intros s0 [Hs0 Hpos].
+    destruct (kget (assets s0) [dn]) as [a|] eqn:Eg; [|apply hoare_fail; auto].
+    destruct (0 <? a_tokens a) eqn:E; [apply hoare_fail; auto|]. apply Z.ltb_ge in E.
+    apply hoare_modify. intros s ->. destruct Hs0 as [Hi Hc]. split; [inv_goal Hi|].
+    unfold sl in *. change (B (set_assets _ s0)) with (B s0). change (U (set_assets _ s0)) with (U s0).
+    unfold T, staked_total in *. cbn [assets set_assets].
+    destruct (Z.eq_dec dn d) as [->|Hne].
+    - rewrite kget_kdel_same by (apply Inv_sorted_assets; exact Hi). rewrite Eg in Hc, Hpos. lia.
+    - rewrite kget_kdel_other by (try apply Inv_sorted_assets; auto; congruence). exact Hc.
+  Qed.
+  Lemma jc_msg_params c au a b l : HS c (msg_update_params au a b l).
+  Proof. apply HS_of_inv. jc_auto c. Qed.
+
+  (* ---------- every operation; every history ---------- *)
+  (* What is assumed of one step.  Environment: third parties only add coins to the custody
+     account and genesis assets start empty (stated on the slack itself); recorded withdrawals are
+     non-negative; the custody module account does not sign delegations.  Two conditions on the
+     module itself: a slash callback that returns an ERROR leaves its partial writes behind (that
+     is C08's subject), and a deleted asset must not have a negative total (C03). *)
+  Definition adm (s : State) (o : Op) : Prop :=
+    match o with
+    | ODelegate del _ _ _ => del <> ACC_ALLIANCE
+    | ODeleteAlliance _ dn => 0 <= staked_total s dn
+    | OHookSlash _ _ => snd (step s o) <> R_ERR
+    | EOracle w => Forall (fun vc => coins_nonneg (snd vc)) w
+    | EBank _ _ | EGenesisAsset _ => sl s <= sl (fst (step s o))
+    | _ => True
+    end.
+
+  Lemma JC_set_oracle_nil c s : JC c s -> JC c (set_oracle [] s).
+  Proof.
+    intros [(HS_ & HW & HO) Hc]. split; [|exact Hc]. split; [exact HS_|]. split; [exact HW|]. unfold ON; cbn. constructor.
+  Qed.
+  Lemma JC_wrap_tx c (m : M unit) s : HS c m -> JC c s -> JC c (fst (clear_oracle (tx m s))).
+  Proof.
+    intros Hm Hs. specialize (Hm s Hs). unfold tx, clear_oracle. destruct (m s); cbn; apply JC_set_oracle_nil; assumption.
+  Qed.
+  Lemma JC_wrap_endblock c (m : M unit) s : HS c m -> JC c s -> JC c (fst (clear_oracle (endblock m s))).
+  Proof.
+    intros Hm Hs. specialize (Hm s Hs). unfold endblock, clear_oracle. destruct (m s); cbn; apply JC_set_oracle_nil; assumption.
+  Qed.
+  Lemma JC_wrap_hook c (m : M unit) s : HS c m -> JC c s -> snd (clear_oracle (hook m s)) <> R_ERR ->
+    JC c (fst (clear_oracle (hook m s))).
+  Proof.
+    intros Hm Hs Hne. specialize (Hm s Hs). unfold hook, clear_oracle in *. destruct (m s); cbn in *; try (apply JC_set_oracle_nil; assumption).
+    exfalso. apply Hne. reflexivity.
+  Qed.
+
+  Lemma Inv_step s o : Inv s -> (match o with EOracle w => Forall (fun vc => coins_nonneg (snd vc)) w | _ => True end) -> Inv (fst (step s o)).
+  Proof.
+    intros (H1 & H2 & H3) Ho. split; [apply step_Sorted; exact H1|]. split; [apply step_WK; exact H2|].
+    unfold ON in *. destruct o; cbn [step]; try exact H3;
+      try (match goal with |- context[clear_oracle ?r] => destruct r as [s' cl]; cbn; constructor end).
+    - cbn. exact Ho.
+    - cbn. rewrite oracle_fold_put_sup, oracle_fold_put_bal. exact H3.
+  Qed.
+
+  Theorem step_JC c s o : JC c s -> adm s o -> JC c (fst (step s o)).
+  Proof.
+    intros Hs Ha. destruct o; cbn [step adm] in *.
+    - (* begin block *) destruct Hs as [Hi Hc]. split; [|exact Hc]. apply (Inv_step s (OBeginBlock time height) Hi I).
+    - apply JC_wrap_endblock; [apply jc_end_blocker | exact Hs].
+    - apply JC_wrap_tx; [apply jc_msg_delegate; exact Ha | exact Hs].
+    - apply JC_wrap_tx; [apply jc_msg_undelegate | exact Hs].
+    - apply JC_wrap_tx; [apply jc_msg_redelegate | exact Hs].
+    - apply JC_wrap_tx; [apply jc_msg_claim | exact Hs].
+    - apply JC_wrap_tx; [apply jc_msg_create | exact Hs].
+    - apply JC_wrap_tx; [apply jc_msg_update | exact Hs].
+    - (* delete *)
+      pose proof (jc_msg_delete c auth denom s (conj Hs Ha)) as H. unfold tx, clear_oracle.
+      destruct (msg_delete_alliance auth denom s); cbn; apply JC_set_oracle_nil; assumption.
+    - apply JC_wrap_tx; [apply jc_msg_params | exact Hs].
+    - apply JC_wrap_hook; [apply jc_hook_slash | exact Hs | exact Ha].
+    - (* oracle *) destruct Hs as [Hi Hc]. split; [|exact Hc]. apply (Inv_step s (EOracle w) Hi Ha).
+    - (* staking view *) destruct Hs as [Hi Hc]. split; [|exact Hc]. apply (Inv_step s (EStaking vals dels) Hi I).
+    - (* bank *) destruct Hs as [Hi Hc]. split; [apply (Inv_step s (EBank bals sups) Hi I)|]. eapply Z.le_trans; [exact Hc | exact Ha].
+    - destruct Hs as [Hi Hc]. split; [|exact Hc]. apply (Inv_step s EFlag Hi I).
+    - destruct Hs as [Hi Hc]. split; [|exact Hc]. apply (Inv_step s (ERemoveValInfo val) Hi I).
+    - destruct Hs as [Hi Hc]. split; [|exact Hc]. apply (Inv_step s (EUnbondingTime t) Hi I).
+    - destruct Hs as [Hi Hc]. split; [|exact Hc]. apply (Inv_step s (EParams delay interval last) Hi I).
+    - (* genesis asset *) destruct Hs as [Hi Hc]. split; [apply (Inv_step s (EGenesisAsset a) Hi I)|]. eapply Z.le_trans; [exact Hc | exact Ha].
+  Qed.
+
+  Fixpoint adm_run (s : State) (h : list Op) : Prop :=
+    match h with
+    | [] => True
+    | o :: h' => adm s o /\ adm_run (fst (step s o)) h'
+    end.
+
+  Theorem run_JC c h : forall s, JC c s -> adm_run s h -> JC c (run s h).
+  Proof.
+    induction h as [|o h IH]; intros s Hs Ha; cbn [run fold_left]; [exact Hs|].
+    destruct Ha as [Ha1 Ha2]. apply IH; [apply step_JC; assumption | exact Ha2].
+  Qed.
+
+  Lemma JC_init : JC 0 init_state.
+  Proof.
+    split; [split; [apply Sorted_init | split; [apply kall_nil | constructor]]|]. unfold sl, B, T, U, bal, staked_total; cbn. lia.
+  Qed.
+
+  (* C01: in every reachable state custody covers the staked total plus the pending unbondings *)
+  Theorem custody_never_short h : adm_run init_state h -> 0 <= slack (run init_state h) d.
+  Proof.
+    intros Ha. pose proof (run_JC 0 h init_state JC_init Ha) as [_ H]. rewrite sl_is_slack in H. exact H.
+  Qed.
+  (* and a margin once present (donations) is never eaten into *)
+  Theorem custody_margin_kept c h s : Inv s -> c <= slack s d -> adm_run s h -> c <= slack (run s h) d.
+  Proof.
+    intros Hi Hc Ha. rewrite <- sl_is_slack in Hc. pose proof (run_JC c h s (conj Hi Hc) Ha) as [_ H]. rewrite sl_is_slack in H. exact H.
   Qed.
 End Denom.
